@@ -69,6 +69,8 @@ def labels(case, R, stats):
         stats.label("no_redundancy")
     if case.get("offset"):
         stats.label("large_abs_terms")
+    if case.get("pow2"):
+        stats.label("scaled_units", "scaled_2^%d" % case["pow2"])
 
 
 def nontrivial(case):
